@@ -4,6 +4,7 @@ import (
 	"errors"
 	"fmt"
 	"os"
+	"strings"
 	"time"
 
 	segment "github.com/blugelabs/bluge_segment_api"
@@ -33,7 +34,7 @@ type RFaultCase struct {
 func init() {
 	register(&Scenario{
 		Name: "read-fault",
-		Rule: "one case = one workload (segment + program of read calls) whose complete fault space is enumerated: every storage-read index x 3 error kinds persistent + 2 transient window lengths; non-trivial = the fault-free program performs >=10 storage reads and at least two different kinds of call; distinct = distinct case JSON",
+		Rule: "one case = one workload (segment + program of read calls) whose complete fault space is enumerated: every storage-read index x 4 error kinds persistent + 2 transient window lengths; non-trivial = the fault-free program performs >=10 storage reads and at least two different kinds of call; distinct = distinct case JSON",
 		Gen:  genRFaultCase,
 		Run:  runRFaultCase,
 	})
@@ -160,6 +161,7 @@ func runRFaultOnce(ws *WSeg, prog []ROp, fault *ReadFault, maxReadsPerCall int, 
 			hooks := &ropHooks{sched: sched, retry: true}
 			suspect, suspectAPI := "", ""
 			hooks.after = func(api string, err error, empty bool) bool {
+				ra.Mark()
 				reads := ra.Calls() - callStartReads
 				fired := ra.FiredCount() - callStartFired
 				out.perCall = append(out.perCall, reads)
@@ -202,9 +204,14 @@ func runRFaultOnce(ws *WSeg, prog []ROp, fault *ReadFault, maxReadsPerCall int, 
 			var opGot *RRes
 			pi := Guard(func() { opGot, opErr = ExecROp(ws, seg, op, hooks) })
 			if pi != nil {
-				out.fail = &Fail{Prop: "C19", Oracle: "read-fault", Kind: "panic", Site: pi.Site, Detail: fmt.Sprintf("%s: op #%d (%s) panicked (faults delivered so far: %d, during this op: %d): %s", label, oi, ROpNames[op.Kind], ra.FiredCount(), ra.FiredCount()-firedBeforeOp, pi.Msg)}
+				kind := "panic"
+				if strings.Contains(pi.Msg, "livelock:") {
+					kind = "hang" // the call never returned: it was cut off by the read budget
+				}
+				out.fail = &Fail{Prop: "C19", Oracle: "read-fault", Kind: kind, Site: pi.Site, Detail: fmt.Sprintf("%s: op #%d (%s) panicked (faults delivered so far: %d, during this op: %d): %s", label, oi, ROpNames[op.Kind], ra.FiredCount(), ra.FiredCount()-firedBeforeOp, pi.Msg)}
 				return
 			}
+			ra.Mark()
 			if out.fail != nil {
 				return
 			}
@@ -322,6 +329,7 @@ func runRFaultCase(c *Case, env *Env) *Result {
 					for _, count := range []int{0, 1} {
 						ra := NewSimReaderAt(ws.Bytes, nil)
 						ra.SetFault(&ReadFault{From: j, Count: count, Kind: k})
+						ra.Budget = 20*loadReads + 2000
 						var seg segment.Segment
 						var lerr error
 						pi := Guard(func() { seg, lerr = ice.Load(NewDataReaderAt(ra, len(ws.Bytes))) })
